@@ -28,7 +28,11 @@ Offs(h) == IF Rand
 Szs(h) == IF Rand
           THEN {IF Dom = "all" /\ RandomElement(1..4) = 1 THEN RandomElement(-1..(Size(h) + 2))
                                            ELSE RandomElement(-1..((Size(h) + 1) \div 2))}
-          ELSE IF Dom = "in" THEN {-1, 1} ELSE -1..(Size(h) + 1)
+          ELSE -1..(Size(h) + 1)
+\* Dom = "in": only (offset, size) pairs that designate a range of the block
+InR(h, off, sz) == Dom = "in" => RangeDom(Size(h), off, sz)
+InRz(h, sk, sz) == Dom = "in" => ResizeDom(Size(h), sk, sz)
+InC(h, sk, sz) == Dom = "in" => CopyDom(Size(h), sk, sz)
 Starts(h) == Pick(0..(Size(h) + 1))
 On(op) == op \in Ops
 ObsOn(op) == op \in Ops /\ (ObsLast => step = Depth - 1)
@@ -38,22 +42,22 @@ Finish == /\ step = Depth /\ step' = Depth + 1
 
 CAlloc == step < Depth /\ On("alloc") /\ HasFree /\ \E p \in Pick(AllocPats) : SAlloc(NewH, p, Pre)
 CDup == step < Depth /\ \E h \in Live : On("dup") /\ HasFree /\ SDup(NewH, h)
-CSplice == step < Depth /\ \E h \in Live : On("splice") /\ HasFree /\ \E off \in Offs(h), sz \in Szs(h) : SSplice(NewH, h, off, sz)
+CSplice == step < Depth /\ \E h \in Live : On("splice") /\ HasFree /\ \E off \in Offs(h), sz \in Szs(h) : InR(h, off, sz) /\ SSplice(NewH, h, off, sz)
 CSplit == step < Depth /\ \E h \in Live : On("split") /\ HasFree /\ \E off \in Offs(h) : SSplit(NewH, h, off)
-CCopy == step < Depth /\ \E h \in Live : On("copy") /\ HasFree /\ \E sk \in Offs(h), sz \in Szs(h) : SCopy("copy", NewH, h, sk, sz, Pre)
-CMerge == step < Depth /\ \E h \in Live : On("merge") /\ \E sk \in Offs(h), sz \in Szs(h) : SCopy("merge", h, h, sk, sz, Pre)
+CCopy == step < Depth /\ \E h \in Live : On("copy") /\ HasFree /\ \E sk \in Offs(h), sz \in Szs(h) : InC(h, sk, sz) /\ SCopy("copy", NewH, h, sk, sz, Pre)
+CMerge == step < Depth /\ \E h \in Live : On("merge") /\ \E sk \in Offs(h), sz \in Szs(h) : InC(h, sk, sz) /\ SCopy("merge", h, h, sk, sz, Pre)
 CAppend == step < Depth /\ \E h \in Live : On("append") /\ \E g \in Live \ {h} : SAppend(h, g)
 CInsert == step < Depth /\ \E h \in Live : On("insert") /\ \E g \in Live \ {h}, off \in Offs(h) : SInsert(h, off, g)
-CDelete == step < Depth /\ \E h \in Live : On("delete") /\ \E off \in Offs(h), sz \in Szs(h) : SDelete(h, off, sz)
+CDelete == step < Depth /\ \E h \in Live : On("delete") /\ \E off \in Offs(h), sz \in Szs(h) : InR(h, off, sz) /\ SDelete(h, off, sz)
 CTruncate == step < Depth /\ \E h \in Live : On("truncate") /\ \E t \in Starts(h) : STruncate(h, t)
-CResize == step < Depth /\ \E h \in Live : On("resize") /\ \E sk \in Offs(h), sz \in Szs(h) : SResize(h, sk, sz)
+CResize == step < Depth /\ \E h \in Live : On("resize") /\ \E sk \in Offs(h), sz \in Szs(h) : InRz(h, sk, sz) /\ SResize(h, sk, sz)
 CPrepend == step < Depth /\ \E h \in Live : On("prepend") /\ \E k \in Pick(0..(Pre + 1)) : SPrepend(h, k)
 CPoke == step < Depth /\ \E h \in Live : On("poke") /\ \E off \in Offs(h) : SWrite("poke", h, off, 3)
 CFree == step < Depth /\ \E h \in Live : On("free") /\ SFree(h)
 CSize == step < Depth /\ \E h \in Live : ObsOn("size") /\ SSize(h)
-CRd1 == step < Depth /\ \E h \in Live : ObsOn("rd1") /\ \E off \in Offs(h), sz \in Pick({-1, 1, 2}) : SRd1(h, off, sz)
+CRd1 == step < Depth /\ \E h \in Live : ObsOn("rd1") /\ \E off \in Offs(h), sz \in Pick({-1, 1, 2}) : InR(h, off, sz) /\ SRd1(h, off, sz)
 CSlin == step < Depth /\ \E h \in Live : ObsOn("slin") /\ \E off \in Offs(h) : SSlin(h, off)
-CExtract == step < Depth /\ \E h \in Live : ObsOn("extract") /\ \E off \in Offs(h), sz \in Szs(h) : SExtract(h, off, sz)
+CExtract == step < Depth /\ \E h \in Live : ObsOn("extract") /\ \E off \in Offs(h), sz \in Szs(h) : InR(h, off, sz) /\ SExtract(h, off, sz)
 CScan == step < Depth /\ \E h \in Live : ObsOn("scan") /\ \E st \in Starts(h), w \in Pick({0, 1}) : SScan(h, st, w)
 
 Calls == CAlloc
